@@ -250,6 +250,75 @@ def check_analytic(rep, prog, m):
         det = 'unrecognised loop body (%s)' % e
     rep.ob('R-ALG', '_from_phi_1D_analytic entries', ok, det, rel, f1.lineno,
            what='entry d = sum_i c1_i DeltaI(d+1,n-d+1) + s_i (d+1)/((n+1)(n+2)) DeltaI(d+2,n-d+1)')
+    def matrix_leaf():
+        """leaves of the linear-algebra routines: matrix products are non-commutative atoms DOT[a|b], transposes TR[a], sub-ranges along
+        the last axis HI[a] / LO[a], rows of the beta-difference tables ROW[table|d], the column 1..n+1 of row numbers plus one DP1[n]"""
+        def leaf(x):
+            if isinstance(x, mx.Sym) and not x.struct and re.fullmatch(r'[A-Za-z_][\w\[\]|.]*', x.text):
+                return Rat.atom(x.text)
+            c_ = mx.call_of(x, 'dot')
+            if c_ is not None and len(c_[0]) == 2 and not c_[1]:
+                return Rat.atom('DOT[%s|%s]' % (mx.to_rat(c_[0][0], leaf).canon(), mx.to_rat(c_[0][1], leaf).canon()))
+            if isinstance(x, mx.Sym) and x.struct and x.struct[0] == 'attr' and x.struct[2] == 'T':
+                return Rat.atom('TR[%s]' % mx.to_rat(x.struct[1], leaf).canon())
+            if isinstance(x, mx.Sym) and x.struct and x.struct[0] == 'attr' and x.struct[2] == 'data' and mx.call_of(x.struct[1], '_from_phi_%dD_linalg' % 0) is None:
+                return mx.to_rat(x.struct[1], leaf)
+            if isinstance(x, mx.Sym) and x.struct and x.struct[0] == 'index':
+                base, key = x.struct[1], x.struct[2]
+                comps = list(key) if isinstance(key, tuple) else [key]
+                last = comps[-1]
+                if isinstance(last, mx.Sym) and not last.struct and re.fullmatch(r'(nuax|None|numpy\.newaxis|np\.newaxis):-1', last.text):
+                    last = slice(None, -1, None)       # `nuax:-1` is `None:-1`, i.e. `:-1` (numpy.newaxis is None)
+                others_ok = all(mx.is_full_slice(c__) or mx.is_newaxis(c__) for c__ in comps[:-1])
+                if isinstance(last, slice) and others_ok and last.step is None:
+                    start = None if mx.is_newaxis(last.start) else last.start
+                    inner = mx.to_rat(base, leaf)
+                    if (start, last.stop) == (1, None):
+                        return Rat.atom('HI[%s]' % inner.canon())
+                    if (start, last.stop) == (None, -1):
+                        return Rat.atom('LO[%s]' % inner.canon())
+                    if (start, last.stop) == (None, None):
+                        return inner
+                ar = mx.call_of(base, 'arange')
+                if ar is not None and len(comps) == 2 and mx.is_full_slice(comps[0]) and mx.is_newaxis(comps[1]) and len(ar[0]) == 2 and ar[0][0] == 1:
+                    return Rat.atom('DP1[%s]' % (mx.to_rat(ar[0][1], leaf) - Rat.const(2)).canon())
+                if not isinstance(key, (tuple, slice)) and isinstance(base, mx.Sym) and base.text.startswith('DB'):
+                    return Rat.atom('ROW[%s|%s]' % (base.text, mx.to_rat(key, leaf).canon()))
+            return None
+        return leaf
+
+    def run_linalg(fn, D):
+        """(paths, tables) of a linear-algebra routine with raw=True; cached_dbeta is summarised by two table symbols per (n, grid)"""
+        def fh(nm, args, kwargs):
+            if nm == 'cached_dbeta' and len(args) == 2:
+                tag = '%s|%s' % (mx.show(args[0]), mx.show(args[1]))
+                return (mx.Sym('DB1[%s]' % tag), mx.Sym('DB2[%s]' % tag))
+            return NotImplemented
+        it = mx.Interp(prog, m, known_functions=known_, symbolic_loops=True, func_hook=fh)
+        pp = positional_params(fn)
+        a_ = {p_: mx.Sym(p_) for p_ in pp}
+        if 'raw' in func_params(fn):
+            a_['raw'] = True
+        out = []
+        for p_ in it.run(fn, a_):
+            if p_[0][0] != 'return':
+                continue
+            v_ = p_[0][1]
+            sp_ = mx.call_of(v_, 'Spectrum')
+            if sp_ is not None and sp_[0]:
+                v_ = sp_[0][0]              # (the 5-D routine has no raw form: the array it wraps)
+            out.append((('return', v_), p_[1], p_[2]))
+        return out
+
+    def closed_form(phi_r, grid, n, row1, row2, fac):
+        """C1 x row1 + S x row2 * fac  with  S = (HI[phi]-LO[phi])/(HI[g]-LO[g]),  C1 = (LO[phi] - S LO[g])/(n+1)  - as the two operands of
+        the products; the caller wraps them into DOT atoms in the order the routine uses"""
+        g, N = Rat.atom(grid), Rat.atom(n)
+        hi = lambda r: Rat.atom('HI[%s]' % r.canon())
+        lo = lambda r: Rat.atom('LO[%s]' % r.canon())
+        S = (hi(phi_r) - lo(phi_r)) / (hi(g) - lo(g))
+        C1 = (lo(phi_r) - S * lo(g)) / (N + Rat.const(1))
+        return S, C1
     # 2-D linalg
     f2 = prog.func(SM, 'Spectrum._from_phi_2D_linalg')
     rep.saw_function(rel + ':' + f2._qualname)
@@ -262,17 +331,26 @@ def check_analytic(rep, prog, m):
             un[tuple(e.id for e in n.targets[0].elts)] = [ast.unparse(a) for a in n.value.args]
     okd = un.get(('dbeta1_xx', 'dbeta2_xx')) == ['nx', 'xx'] and un.get(('dbeta1_yy', 'dbeta2_yy')) == ['ny', 'yy']
     rep.ob('R-IDX', '_from_phi_2D_linalg dbeta', okd, str(un), rel, f2.lineno, what='beta differences for (n, grid) of each axis')
-    want = {'term1_yy': 'np.dot(dbeta1_yy, c1_yy.T)', 'term2_yy': 'np.dot(dbeta2_yy, s_yy.T)', 'over_y_all': 'term1_yy + term2_yy',
-            'term1_all': 'np.dot(dbeta1_xx, c1_xx_all.T)', 'term2_all': 'np.dot(dbeta2_xx, s_xx_all.T)', 'data': 'term1_all + term2_all'}
-    got = {k: (ast.unparse(sing[k]) if k in sing else None) for k in want}
-    asg = {}
-    for n in own_nodes(f2):
-        if isinstance(n, ast.Assign) and isinstance(n.targets[0], ast.Name):
-            asg.setdefault(n.targets[0].id, []).append(ast.unparse(n.value))
-    okt = all(want[k] in asg.get(k, []) for k in want)
-    aug = {ast.unparse(n.target): ast.unparse(n.value) for n in own_nodes(f2) if isinstance(n, ast.AugAssign) and isinstance(n.op, ast.Mult)}
-    oka = aug.get('term2_yy') == 'np.arange(1, ny + 2)[:, np.newaxis] / ((ny + 1) * (ny + 2))' and aug.get('term2_all') == 'np.arange(1, nx + 2)[:, np.newaxis] / ((nx + 1) * (nx + 2))'
-    rep.ob('R-ALG', '_from_phi_2D_linalg terms', okt and oka, 'term1 = dbeta1 . c1, term2 = dbeta2 . s * (d+1)/((n+1)(n+2)) on both axes (y first, then x)', rel, f2.lineno,
+    okt, dett = False, ''
+    try:
+        paths = run_linalg(f2, 2)
+        if len(paths) != 1:
+            raise mx.Undecidable('%d returning paths' % len(paths))
+        leaf = matrix_leaf()
+        got = mx.to_rat(paths[0][0][1], leaf)
+        one, two = Rat.const(1), Rat.const(2)
+
+        def stage(phi_r, grid, n):
+            S, C1 = closed_form(phi_r, grid, n, None, None, None)
+            N = Rat.atom(n)
+            return Rat.atom('DOT[DB1[%s|%s]|TR[%s]]' % (n, grid, C1.canon())) + Rat.atom('DOT[DB2[%s|%s]|TR[%s]]' % (n, grid, S.canon())) * Rat.atom('DP1[%s]' % N.canon()) / ((N + one) * (N + two))
+        over_y = stage(Rat.atom('phi'), 'yy', 'ny')
+        ref = stage(over_y, 'xx', 'nx')
+        okt = got.equals(ref)
+        dett = 'data = DB1(nx,xx) . C1(over_y)^T + DB2(nx,xx) . S(over_y)^T * (d+1)/((nx+1)(nx+2)), over_y the same closed form of phi along y' if okt else 'returns %s' % got.canon()[:200]
+    except (mx.Undecidable, AlgebraError) as e:
+        dett = 'not recognised: %s' % e
+    rep.ob('R-ALG', '_from_phi_2D_linalg terms', okt, dett, rel, f2.lineno,
            what='matrix form of the 1-D closed forms applied to the last axis, then to the first')
     # peel levels 3, 4, 5
     for D in (3, 4, 5):
@@ -283,37 +361,46 @@ def check_analytic(rep, prog, m):
         oks = params[:2 * D + 1] == NS[:D] + G[:D] + ['phi']
         rep.ob('R-IDX', '_from_phi_%dD_linalg signature' % D, oks, 'parameters %s' % params, rel, fn.lineno, what='(sizes, grids, phi) in axis order')
         check_slope_const(rep, m, fn, '_from_phi_%dD_linalg' % D, 'phi', g, n_, 's_' + L, 'c1_' + L)
-        un = [n for n in own_nodes(fn) if isinstance(n, ast.Assign) and isinstance(n.value, ast.Call) and dotted(n.value.func) == 'cached_dbeta']
-        okd = len(un) == 1 and [ast.unparse(a) for a in un[0].value.args] == [n_, g] and [e.id for e in un[0].targets[0].elts] == ['dbeta1_' + L, 'dbeta2_' + L]
-        lp = [n for n in fn.body if isinstance(n, ast.For)]
-        ok = False
-        det = ''
-        if lp and okd and not isinstance(lp[0].target, ast.Name):
-            det = 'unrecognised loop (the peeling loop does not run over a plain index: %s)' % ast.unparse(lp[0].target)
-        elif lp and okd:
-            v = lp[0].target.id
-            b = {}
-            augs = {}
-            for s_ in lp[0].body:
-                if isinstance(s_, ast.Assign):
-                    b[ast.unparse(s_.targets[0])] = s_.value
-                elif isinstance(s_, ast.AugAssign):
-                    augs[ast.unparse(s_.target)] = (type(s_.op).__name__, s_.value)
-            try:
-                okr = ast.unparse(lp[0].iter) in ('range(0, %s + 1)' % n_, 'range(%s + 1)' % n_)
-                ok1 = ast.unparse(b['term1']) == 'np.dot(c1_%s, dbeta1_%s[%s])' % (L, L, v) and ast.unparse(b['term2']) == 'np.dot(s_%s, dbeta2_%s[%s])' % (L, L, v)
-                ok2 = augs.get('term2', ('', None))[0] == 'Mult' and Translator().tr(augs['term2'][1]).equals(parse_expr('(%s + 1)/((%s + 1)*(%s + 2))' % (v, n_, n_)))
-                over = [k for k, val in b.items() if ast.unparse(val) == 'term1 + term2']
-                rc = b.get('sub_fs')
-                okc = bool(over) and isinstance(rc, ast.Call) and dotted(rc.func) == 'Spectrum._from_phi_%dD_linalg' % (D - 1) and \
-                    [ast.unparse(a) for a in rc.args] == NS[:D - 1] + G[:D - 1] + [over[0]] and {k.arg: ast.unparse(k.value) for k in rc.keywords} == {'raw': 'True'}
-                st = [k for k in b if k.startswith('data[')]
-                okst = bool(st) and st[0].replace(' ', '') == 'data[%s%s]' % (':,' * (D - 1), v) and ast.unparse(b[st[0]]) in ('sub_fs.data', 'sub_fs')
-                ok = okr and ok1 and ok2 and okc and okst
-                det = 'range %s, terms %s, factor %s, recursion %s, store %s' % (okr, ok1, ok2, okc, okst)
-            except (KeyError, AlgebraError) as e:
-                det = 'unrecognised loop body (%s)' % e
-        rep.ob('R-TPL(peel)', '_from_phi_%dD_linalg' % D, ok and okd, det or 'cached_dbeta / loop not found', rel, lp[0].lineno if lp else fn.lineno,
+        ok, det = False, ''
+        try:
+            paths = run_linalg(fn, D)
+            if len(paths) != 1:
+                raise mx.Undecidable('%d returning paths' % len(paths))
+            outcome, events, _d = paths[0]
+            data = outcome[1]
+            st = [e for e in events if e[0] == 'setitem' and mx.show(e[4]) == mx.show(data)]
+            if mx.call_of(data, 'zeros') is None or len(st) != 1:
+                raise mx.Undecidable('%d stores into the result' % len(st))
+            key, val = st[0][2], st[0][3]
+            key = list(key) if isinstance(key, tuple) else [key]
+            okst = len(key) == D and all(mx.is_full_slice(k_) for k_ in key[:-1]) and isinstance(key[-1], mx.Sym) and not key[-1].struct
+            dv = mx.show(key[-1])
+            if isinstance(val, mx.Sym) and val.struct and val.struct[0] == 'attr' and val.struct[2] == 'data':
+                val = val.struct[1]
+            sub = mx.call_of(val, '_from_phi_%dD_linalg' % (D - 1))
+            if sub is None:
+                raise mx.Undecidable('stores %s' % mx.show(val)[:50])
+            okc = [mx.show(a) for a in sub[0][:-1]] == NS[:D - 1] + G[:D - 1] and {k_: v_ for k_, v_ in sub[1].items()} == {'raw': True} and len(sub[0]) == 2 * (D - 1) + 1
+            leaf = matrix_leaf()
+            got = mx.to_rat(sub[0][-1], leaf)
+            S, C1 = closed_form(Rat.atom('phi'), g, n_, None, None, None)
+            N_, Dv = Rat.atom(n_), Rat.atom(dv)
+            ref = Rat.atom('DOT[%s|ROW[DB1[%s|%s]|%s]]' % (C1.canon(), n_, g, dv)) + \
+                Rat.atom('DOT[%s|ROW[DB2[%s|%s]|%s]]' % (S.canon(), n_, g, dv)) * (Dv + Rat.const(1)) / ((N_ + Rat.const(1)) * (N_ + Rat.const(2)))
+            okv = got.equals(ref)
+            rg = next((e[3] for e in events if e[0] == 'loop' and e[2] == dv and len(e) > 3), None)
+            c_ = mx.call_of(rg, 'range') if rg is not None else None
+            r_ = mx.call_of(rg, 'rows') if rg is not None else None
+            okr = (c_ is not None and (c_[0][0] if len(c_[0]) == 2 else 0) == 0 and mx.show(c_[0][-1]) in ('(%s + 1)' % n_, '%s + 1' % n_)) or \
+                (r_ is not None and all(mx.show(a) in ('DB1[%s|%s]' % (n_, g), 'DB2[%s|%s]' % (n_, g)) for a in r_[0]))
+            zc = mx.call_of(data, 'zeros')
+            shp = zc[0][0] if zc[0] else None
+            oksh = isinstance(shp, (tuple, list)) and [mx.show(x_) for x_ in shp] == ['(%s + 1)' % NS[a] for a in range(D)]
+            ok = okst and okc and okv and okr and oksh
+            det = 'range %s, value %s, recursion %s, store %s, shape %s' % (okr, okv, okc, okst, oksh)
+        except (mx.Undecidable, AlgebraError) as e:
+            det = 'unrecognised loop body (%s)' % e
+        rep.ob('R-TPL(peel)', '_from_phi_%dD_linalg' % D, ok, det, rel, fn.lineno,
                what='peels axis %d with the closed forms, recurses on the %d-D routine with (sizes, grids) in order and raw=True, stores at data[..., d]' % (D, D - 1))
 
 
